@@ -213,7 +213,7 @@ namespace Givaro
     ModularBalanced<float>::init(Element& x, const Integer& y) const
     {
         x = static_cast<Element>(y % _p);
-        NORMALISE_HI(x);
+        NORMALISE(x);
         return x;
     }
 
